@@ -283,6 +283,7 @@ class Visitor(
         super().__init__()
         self._sources: typing.Mapping['dsl.Source', 'parser.Source'] = types.MappingProxyType(sources)
         self._features: typing.Mapping['dsl.Feature', 'parser.Feature'] = types.MappingProxyType(features)
+        self._references: dict['dsl.Reference', tuple['parser.Source', 'parser.Source']] = {}
 
     def resolve_feature(self, feature: 'dsl.Feature') -> 'parser.Feature':
         """Get a custom target code for a feature value.
@@ -505,6 +506,13 @@ class Visitor(
 
     @bypass(resolve_source)
     def visit_reference(self, source: 'dsl.Reference') -> None:
+        if source in self._references:
+            # the same reference met again in another scope (ie the other operand of a set): the features generated for
+            # its elements are bound to the handle generated first - keep using that one
+            origin, handle = self._references[source]
+            self.context.origins[source] = handle
+            self.context.symbols.push(origin)
+            return
         tables = self.context.tables
         # the referenced instance is only used through its handle - the hints collected for a same-named bare table
         # of this context (e.g. the other side of a self join) do not apply to it
@@ -516,7 +524,7 @@ class Visitor(
             super().visit_reference(source)
         finally:
             self.context.tables = tables
-        origin, handle = self.generate_reference(self.context.symbols.pop(), source.name)
+        origin, handle = self._references[source] = self.generate_reference(self.context.symbols.pop(), source.name)
         self.context.origins[source] = handle
         self.context.symbols.push(origin)
 
